@@ -22,38 +22,44 @@ class Step(VC):
 
 
 class Chain(VC):
-    """two calls in a row (an allowance change by the owner, then a draw by anyone at any later block): the draw's obligations
-    are checked against the state the first call really produced, so defects that need two cooperating sites show up"""
+    """two (or three) calls in a row — allowance changes by the owner and draws by anyone, each at any later block: the last
+    call's obligations are checked against the state the earlier calls really produced, so defects that need cooperating
+    sites or a short history on one (owner, spender) key show up"""
     property_id = "C02"
     crate = CRATE
 
-    def __init__(self, first, second):
-        self.first, self.second = first, second
-        self.name = f"C02.chain.{first}.then.{second}"
+    def __init__(self, *variants):
+        self.variants = variants
+        self.first, self.second = variants[0], variants[-1]
+        self.name = "C02.chain." + ".then.".join(variants)
 
     def run(self, I, ctx, ob):
-        f1 = run_step(I, ctx, ob, self.first, n=2)
+        f1 = run_step(I, ctx, ob, self.variants[0], n=2)
         if f1.outcome != "Ok": return
-        f = Facts()
-        f.U, f.variant = f1.U, self.second
-        blk1 = f1.env.get("block")
-        env2 = mk_env(I, ctx)
-        h2, t2 = ctx.fresh_int("block2.height", 0, U64), ctx.fresh_int("block2.time", 0, U64)
-        ctx.assume(zand(h2 >= blk1.get("height"), t2 >= blk1.get("time")))
-        f.env = env2.with_("block", Struct("BlockInfo", [h2, t2, "chain"], ["height", "time", "chain_id"]))
-        f.info = mk_info(I, ctx, name="sender2")
-        msg = symval.fresh(I, ctx, "Cw20ExecuteMsg", "msg2", None, CRATE)
-        msg.variants = [self.second]
-        f.msg = m = I.force(ctx, msg)
-        f.sender = resolve(ctx, f.info.get("sender"), f.U)
-        f.addr = {}
-        for fld in ("owner", "spender", "recipient", "contract"):
-            if m.names and fld in m.names: f.addr[fld] = resolve(ctx, m.get(fld), f.U)
-        f.amount = m.get("amount") if m.names and "amount" in m.names else None
-        f.outcome, f.resp, f.pre = call_entry(I, ctx, ob, CRATE, "execute", "execute", [make_deps(), f.env, f.info, m], f.env, f.info, m, "Cw20ExecuteMsg", CRATE)
-        f.post = ctx.storage
-        ob.outcome = f"Ok>{f.outcome}"
-        step_obligations(I, ctx, ob, f, self.second)
+        prev_blk = f1.env.get("block")
+        f = None
+        for k, variant in enumerate(self.variants[1:], start=2):
+            f = Facts()
+            f.U, f.variant = f1.U, variant
+            env2 = mk_env(I, ctx)
+            h2, t2 = ctx.fresh_int(f"block{k}.height", 0, U64), ctx.fresh_int(f"block{k}.time", 0, U64)
+            ctx.assume(zand(h2 >= prev_blk.get("height"), t2 >= prev_blk.get("time")))
+            f.env = env2.with_("block", Struct("BlockInfo", [h2, t2, "chain"], ["height", "time", "chain_id"]))
+            prev_blk = f.env.get("block")
+            f.info = mk_info(I, ctx, name=f"sender{k}")
+            msg = symval.fresh(I, ctx, "Cw20ExecuteMsg", f"msg{k}", None, CRATE)
+            msg.variants = [variant]
+            f.msg = m = I.force(ctx, msg)
+            f.sender = resolve(ctx, f.info.get("sender"), f.U)
+            f.addr = {}
+            for fld in ("owner", "spender", "recipient", "contract"):
+                if m.names and fld in m.names: f.addr[fld] = resolve(ctx, m.get(fld), f.U)
+            f.amount = m.get("amount") if m.names and "amount" in m.names else None
+            f.outcome, f.resp, f.pre = call_entry(I, ctx, ob, CRATE, "execute", "execute", [make_deps(), f.env, f.info, m], f.env, f.info, m, "Cw20ExecuteMsg", CRATE)
+            f.post = ctx.storage
+            ob.outcome = "Ok>" * (k - 1) + f.outcome
+            if f.outcome != "Ok" and variant is not self.variants[-1]: return
+        step_obligations(I, ctx, ob, f, self.variants[-1])
 
 
 def step_obligations(I, ctx, ob, f, v):
@@ -203,6 +209,8 @@ def vcs(tier):
         out += [Chain("IncreaseAllowance", "TransferFrom")] + [Chain(a, b) for a in ("DecreaseAllowance", "IncreaseAllowance") for b in ("BurnFrom", "SendFrom")]
         out += [Chain("TransferFrom", "IncreaseAllowance")] + [Chain(a, b) for a in ("BurnFrom", "SendFrom") for b in ("DecreaseAllowance", "IncreaseAllowance")]
         out += [Chain(a, b) for a in DRAW for b in DRAW]
+        # three calls on one key: revoke / re-grant / draw and its variations
+        out += [Chain(a, b, "TransferFrom") for a in ("DecreaseAllowance", "IncreaseAllowance") for b in ("DecreaseAllowance", "IncreaseAllowance")]
     out += [Ghost(v) for v in ("IncreaseAllowance", "DecreaseAllowance", "TransferFrom", "SendFrom", "BurnFrom", "Transfer", "Burn")]
     return out
 
